@@ -37,12 +37,17 @@ type Level struct {
 	Pce    uint16
 	Tdx    [16]byte
 	Status string
+	// SgxN / TdxN shape the component lists: 0 = all sixteen, -1 = member omitted, -2 = empty list,
+	// k > 0 = the first k components (beyond sixteen the last one is repeated).
+	SgxN, TdxN int
+	NoStatus   bool // omit the tcbStatus member
 }
 
 // IsvLevel is one isvsvn-keyed level (QE identity, TDX module identity).
 type IsvLevel struct {
-	Isv    uint32
-	Status string
+	Isv      uint32
+	Status   string
+	NoStatus bool // omit the tcbStatus member
 }
 
 // ModIdent is one TDX module identity.
@@ -69,18 +74,35 @@ type TcbInfoSpec struct {
 	Levels     []Level
 }
 
-func comps(v [16]byte) string {
+func comps(name string, v [16]byte, n int) string {
+	if n == -1 {
+		return ""
+	}
+	if n == 0 {
+		n = 16
+	}
 	var s []string
-	for _, x := range v {
+	for i := 0; i < n; i++ {
+		x := v[15]
+		if i < 16 {
+			x = v[i]
+		}
 		s = append(s, fmt.Sprintf(`{"svn":%d,"category":"BIOS","type":"Early Microcode Update"}`, x))
 	}
-	return "[" + strings.Join(s, ",") + "]"
+	return `"` + name + `":[` + strings.Join(s, ",") + "],"
+}
+
+func statusMember(st string, omit bool) string {
+	if omit {
+		return ""
+	}
+	return fmt.Sprintf(`,"tcbStatus":%q`, st)
 }
 
 func isvLevels(ls []IsvLevel) string {
 	var out []string
 	for _, l := range ls {
-		out = append(out, fmt.Sprintf(`{"tcb":{"isvsvn":%d},"tcbDate":"2023-02-15T00:00:00Z","tcbStatus":%q}`, l.Isv, l.Status))
+		out = append(out, fmt.Sprintf(`{"tcb":{"isvsvn":%d},"tcbDate":"2023-02-15T00:00:00Z"%s}`, l.Isv, statusMember(l.Status, l.NoStatus)))
 	}
 	return "[" + strings.Join(out, ",") + "]"
 }
@@ -89,7 +111,7 @@ func isvLevels(ls []IsvLevel) string {
 func (s *TcbInfoSpec) JSON() string {
 	var ls []string
 	for _, l := range s.Levels {
-		ls = append(ls, fmt.Sprintf(`{"tcb":{"sgxtcbcomponents":%s,"pcesvn":%d,"tdxtcbcomponents":%s},"tcbDate":"2023-02-15T00:00:00Z","tcbStatus":%q}`, comps(l.Sgx), l.Pce, comps(l.Tdx), l.Status))
+		ls = append(ls, fmt.Sprintf(`{"tcb":{%s%s"pcesvn":%d},"tcbDate":"2023-02-15T00:00:00Z"%s}`, comps("sgxtcbcomponents", l.Sgx, l.SgxN), comps("tdxtcbcomponents", l.Tdx, l.TdxN), l.Pce, statusMember(l.Status, l.NoStatus)))
 	}
 	mods := ""
 	if !s.OmitMods {
